@@ -128,7 +128,7 @@ impl GLM {
 
     fn apply_dbeta_penalty(&self, dbeta: &mut [f64], coef: &[f64]) {
         for i in 1..coef.len() {
-            dbeta[i] += coef[i];
+            dbeta[i] += self.alpha * coef[i];
         }
     }
 
